@@ -9,7 +9,7 @@ LEVEL = 'exploration'
 RULE = ('(S) Semiring.solve on every n x n system for n in {1,2} over {0,1/4,1/2,1,2,inf} (n=3 over {0,1/2,1} in the thorough '
         'tier), b a vector and an n x 2 matrix, in Real / Log / Viterbi / Bool, against exact least-solution oracles (SCC '
         'decomposition, rho<1 decided by leading principal minors, Gaussian elimination in rationals; max-plus Bellman-Ford; '
-        'Boolean closure); (P) PatternedTensor.solve on every square same-typed (A, b) pattern pair of the catalogue '
+        'Boolean closure); (PS) PatternedTensor.solve on operands sharing PhysicalAxis objects: a[(x*y),(z*w)], b[(u*v)] over three size-2 axes, all 9^3 choices, shared vs separate axis objects, vector and matrix b; (P) PatternedTensor.solve on every square same-typed (A, b) pattern pair of the catalogue '
         '(subcritical values, plus rho=1 and rho>1 scalings) in the four semirings against Semiring.solve on the dense '
         'tensors; (M) multi_solve / multi_mv on 2 and 3 block indices with EVERY presence pattern of the k^2 blocks of A and '
         'k blocks of b, mixed block shapes (scalars, vectors, size-1, rank-2 indices), transpose on/off, both key orders, '
@@ -42,6 +42,8 @@ def gen_cases(tier, seed):
             for lo in range(0, len(cat[tt]), 2):
                 yield ('P', i, lo, lo + 2)
     yield ('P3',)
+    for lo in range(9):
+        yield ('PS', lo, lo + 1)
     for si in range(3):
         nk = 3 if si < 2 else 2
         for amask in range(1 << (nk * nk)):
@@ -112,6 +114,8 @@ def run_case(case):
         part_p(case[1], r, case, case[2] if len(case) > 2 else 0, case[3] if len(case) > 3 else None)
     elif case[0] == 'P3':
         part_p3(r, case)
+    elif case[0] == 'PS':
+        part_ps(r, case)
     elif case[0] == 'M':
         part_m(case[1], case[2], r, case)
     elif case[0] == 'S1':
@@ -218,6 +222,61 @@ def part_p(i, r, case, lo=0, hi=None):
                         r.bad('not-least-solution', 'indices.PatternedTensor.solve', sem, '%s: A=%s (%s) b=%s: patterned solve %r, dense semiring solve %r' % (sem, P.show(pa), scale, P.show(pb), x.tolist(), want.tolist()), ('P', i), key)
                     else:
                         r.ok(key, outcome=(sem, scale), nontrivial=True)
+
+
+def part_ps(r, case):
+    """Operands that share PhysicalAxis objects: a[(x*y), (z*w)] over three axes p, q, r of size 2 (every choice of
+    x, y, z, w), b[(u*v)] written with the SAME axis objects (and, as a control, with its own), vector and matrix b."""
+    import torch
+    from fggs.indices import PatternedTensor, PhysicalAxis, productAxis
+    names = 'pqr'
+    prods = [(x, y) for x in names for y in names]
+    _, rows_lo, rows_hi = case
+    for (x, y) in prods[rows_lo:rows_hi]:
+        for (z, w_) in prods:
+            used = sorted(set((x, y, z, w_)))
+            n = len(used)
+            base = (torch.arange(1., 2 ** n + 1., dtype=torch.float64) / (2 ** n * 4 + 1)).reshape((2,) * n)     # row sums < 1/2
+            for (u, v) in prods:
+                for share in (True, False):
+                    for matrix in (False, True):
+                        for sem in SEMS:
+                            key = (case, x + y, z + w_, u + v, share, matrix, sem)
+                            S = IR.semiring(sem, 'float64')
+                            zero = S.from_int(0).item()
+                            try:
+                                ax = {c: PhysicalAxis(2) for c in names}
+                                bx = ax if share else {c: PhysicalAxis(2) for c in names}
+                                bused = sorted(set((u, v)))
+                                bphys = torch.arange(1., 2 ** len(bused) + 1., dtype=torch.float64).reshape((2,) * len(bused))
+                                aph, bph = base, bphys
+                                cax = PhysicalAxis(3)
+                                if matrix:
+                                    bph = torch.stack([bphys, bphys + 1, bphys * 2], dim=-1)
+                                if sem == 'bool':
+                                    aph, bph = aph > 0.05, bph.remainder(2) > 0
+                                elif sem != 'real':
+                                    aph, bph = aph.log(), bph.log()
+                                a = PatternedTensor(aph.clone(), tuple(ax[c] for c in used), (productAxis((ax[x], ax[y])), productAxis((ax[z], ax[w_]))), zero)
+                                b = PatternedTensor(bph.clone(), tuple(bx[c] for c in bused) + ((cax,) if matrix else ()), (productAxis((bx[u], bx[v])),) + ((cax,) if matrix else ()), zero)
+                                Ad, Bd = a.to_dense(), b.to_dense()
+                                snap = (a.physical.clone(), b.physical.clone())
+                                xs = a.solve(b, S).to_dense()
+                                want = S.solve(Ad.clone(), Bd.clone())
+                            except ptinv.RepInvariantError as e:
+                                r.bad('representation-invariant', 'indices.PatternedTensor.solve', sem, 'shared axes %r: %s' % (key[1:], e), case, key)
+                                continue
+                            except Exception as e:
+                                r.exc(e, sem, case, key, msg='solve with shared axes %r: %s: %s' % (key[1:], type(e).__name__, str(e)[:150]))
+                                continue
+                            if not (torch.equal(a.physical, snap[0]) and torch.equal(b.physical, snap[1])):
+                                r.bad('argument-modified', 'indices.PatternedTensor.solve', sem, 'solve changed its arguments: %r' % (key[1:],), case, key)
+                                continue
+                            same = torch.equal(xs, want) if sem == 'bool' else (xs.shape == want.shape and torch.equal(torch.isinf(xs), torch.isinf(want)) and torch.allclose(xs, want, rtol=1e-9, atol=1e-12))
+                            if not same:
+                                r.bad('not-least-solution', 'indices.PatternedTensor.solve', sem, '%s: a[(%s*%s),(%s*%s)] b[(%s*%s)%s] %s axis objects: patterned solve %r, dense semiring solve %r' % (sem, x, y, z, w_, u, v, ',c' if matrix else '', 'sharing' if share else 'with separate', xs.tolist(), want.tolist()), case, key)
+                            else:
+                                r.ok(key, outcome=(sem, 'shared' if share else 'own'), nontrivial=True)
 
 
 def part_p3(r, case):
